@@ -5,6 +5,7 @@ import (
 	"fmt"
 
 	"github.com/sarchlab/akita/v5/hooking"
+	"github.com/sarchlab/akita/v5/mem/memcontrolprotocol"
 	"github.com/sarchlab/akita/v5/mem/memprotocol"
 	"github.com/sarchlab/akita/v5/messaging"
 
@@ -14,6 +15,25 @@ import (
 type robObs struct {
 	accepted []messaging.Msg // requests in the order the ROB retrieved them from Top
 	answered []messaging.Msg // responses in the order the ROB sent them on Top
+	resets   int
+	truncate bool
+}
+
+type robCtrlHook struct{ o *robObs }
+
+// A reset drops every request the reorder buffer accepted and has not answered:
+// the order oracle continues with the requests accepted afterwards.
+func (h robCtrlHook) Func(ctx hooking.HookCtx) {
+	if ctx.Pos != messaging.HookPosPortMsgSend {
+		return
+	}
+
+	if r, ok := ctx.Item.(memcontrolprotocol.Rsp); ok && r.Command == memcontrolprotocol.CmdReset && r.Success {
+		// the ROB sends the ack first and then drains its ports (more retrieve
+		// hooks fire); drop the unanswered requests at the end of this tick
+		h.o.truncate = true
+		h.o.resets++
+	}
 }
 
 type robTopHook struct{ o *robObs }
@@ -32,7 +52,31 @@ func (h robTopHook) Func(ctx hooking.HookCtx) {
 	}
 }
 
-func genC21(r *kit.Rand, tier kit.Tier) Config {
+// C21Case is a ROB run with an optional control script (pause/enable/reset in the middle of traffic).
+type C21Case struct {
+	Cfg   Config     `json:"cfg"`
+	Steps []CtrlStep `json:"steps,omitempty"`
+}
+
+func genC21(r *kit.Rand, tier kit.Tier) C21Case {
+	cfg := genC21Cfg(r, tier)
+	c := C21Case{Cfg: cfg}
+
+	if r.Chance(1, 3) {
+		t := uint64(0)
+		for i := 0; i < r.Range(1, 3); i++ {
+			t += uint64(r.PickInt(1000, 5000, 20000, 60000))
+			cmd := r.PickInt(int(memcontrolprotocol.CmdPause), int(memcontrolprotocol.CmdReset), int(memcontrolprotocol.CmdDrain))
+			c.Steps = append(c.Steps, CtrlStep{Target: "ROB", Cmd: cmd, At: t, Wait: r.Bool()})
+			t += uint64(r.PickInt(0, 2000, 30000))
+			c.Steps = append(c.Steps, CtrlStep{Target: "ROB", Cmd: int(memcontrolprotocol.CmdEnable), At: t, Wait: true})
+		}
+	}
+
+	return c
+}
+
+func genC21Cfg(r *kit.Rand, tier kit.Tier) Config {
 	c := GenConfig(r, tier, GenOpts{OnlyCaches: 0, Stub: true, NoRob: true})
 	c.Lower.Count = 1
 	c.Lower.StubUnique = true
@@ -55,14 +99,37 @@ func genC21(r *kit.Rand, tier kit.Tier) Config {
 	return c
 }
 
-func execC21(c Config, _ *kit.Env) kit.Outcome {
+func execC21(cc C21Case, _ *kit.Env) kit.Outcome {
 	var out kit.Outcome
+
+	c := cc.Cfg
 
 	w := NewWorld()
 	obs := &robObs{}
 	w.NoDataCheck = true
+	w.AfterEvent = func(_ *World, handler string) {
+		if handler == "ROB" && obs.truncate {
+			obs.accepted = obs.accepted[:len(obs.answered)]
+			obs.truncate = false
+		}
+	}
 	w.OnBuilt = func(a *Asm) {
 		a.Rob.GetPortByName("Top").AcceptHook(robTopHook{obs})
+		a.Rob.GetPortByName("Control").AcceptHook(robCtrlHook{obs})
+
+		if len(cc.Steps) > 0 {
+			w.Ctrl = NewCtrlDriver(a, w, cc.Steps)
+			w.Ctrl.OnAck = func(_ *CtrlDriver, ack CtrlAck, step CtrlStep) {
+				if step.Cmd == int(memcontrolprotocol.CmdReset) && ack.Rsp.Success {
+					// requests inside the ROB at the reset are dropped, as documented
+					for _, r := range a.Reqs {
+						for id := range r.out {
+							w.ReleaseRequest(id, false)
+						}
+					}
+				}
+			}
+		}
 	}
 
 	a := Run(&c, w)
@@ -117,7 +184,7 @@ func execC21(c Config, _ *kit.Env) kit.Outcome {
 		}
 	}
 
-	if !w.CapHit && len(obs.answered) != len(obs.accepted) {
+	if !w.CapHit && len(obs.answered) != len(obs.accepted) && obs.resets == 0 {
 		out.Violation = kit.Violate("rob-order", "C21:missing-response", "the reorder buffer accepted %d requests and answered %d", len(obs.accepted), len(obs.answered))
 		return out
 	}
@@ -127,6 +194,8 @@ func execC21(c Config, _ *kit.Env) kit.Outcome {
 	}
 
 	out.Probe("lower-completed-out-of-order", btoi(reorderSeen))
+	out.Fault("control-verb(pause|drain|reset|enable)-mid-traffic", len(cc.Steps))
+	out.Probe("reset-mid-traffic", obs.resets)
 	out.NonTrivial = len(obs.accepted) >= 3 && reorderSeen
 	out.Sample = map[string]any{"assembly": Describe(&c), "rob_buffer": c.Rob.BufferSize, "accepted": len(obs.accepted), "lower_reordered": st.Reordered}
 	out.Shape = fmt.Sprintf("%s|%d|%d|%d", Describe(&c), len(obs.accepted), w.Events, out.SimTimePs)
@@ -135,16 +204,32 @@ func execC21(c Config, _ *kit.Env) kit.Outcome {
 }
 
 func init() {
-	kit.Register(kit.Spec[Config]{
+	kit.Register(kit.Spec[C21Case]{
 		ID: "C21", Level: "exploration",
-		Rule: "1-3 scripted requesters -> real reorder buffer (buffer 1-16, 1-4 requests per cycle, port buffers 1-8) -> adversarial lower memory that answers after seeded delays (0-100 cycles) in a seeded order with a unique payload per read; every request has its own address; " +
+		Rule: "1-3 scripted requesters -> real reorder buffer (buffer 1-16, 1-4 requests per cycle, port buffers 1-8) -> adversarial lower memory that answers after seeded delays (0-100 cycles) in a seeded order with a unique payload per read; every request has its own address; 1 run in 3 adds pause / drain / reset + enable verbs in the middle of the traffic (a reset drops the accepted-but-unanswered requests from the order oracle); " +
 			"oracle from hooks on the ROB's Top port: responses leave in exactly the order requests were retrieved, each with RspTo = original ID, Dst = original requester, matching kind and the lower unit's payload for that request; distinct = hash of (assembly, accepted, events, end time); non-trivial = >= 3 requests and the lower unit completed at least one out of order",
 		Assumptions: []string{"the shadow request is attributed to its original by its (unique) address"},
 		Real:        []string{"mem/rob", "noc/directconnection", "messaging.Port", "timing.SerialEngine"},
 		Stubs:       []string{"requesters", "adversarial lower memory"},
-		FaultKinds:  []string{"lower-response-delayed", "lower-response-reordered", "requester-stall-window", "back-pressure(requester-send-blocked)"},
+		FaultKinds:  []string{"lower-response-delayed", "lower-response-reordered", "requester-stall-window", "back-pressure(requester-send-blocked)", "control-verb(pause|drain|reset|enable)-mid-traffic"},
 		Quick:       kit.Budget{Runs: 15000, WallS: 100},
 		Thorough:    kit.Budget{Runs: 1000000, WallS: 900},
-		Gen:         genC21, Exec: execC21, Shrink: ShrinkConfig,
+		Gen:         genC21, Exec: execC21,
+		Shrink: func(c C21Case) []C21Case {
+			var out []C21Case
+			for _, q := range ShrinkConfig(c.Cfg) {
+				if q.Rob == nil || q.Lower.Kind != "stub" {
+					continue
+				}
+
+				out = append(out, C21Case{Cfg: q, Steps: c.Steps})
+			}
+
+			if len(c.Steps) > 0 {
+				out = append(out, C21Case{Cfg: c.Cfg})
+			}
+
+			return out
+		},
 	})
 }
